@@ -826,6 +826,40 @@ def _ifs_in_order(fn):
     return out
 
 
+def _restore_bool_returns(fn, rf, log, q):
+    """return bool(c) / return c   ->   if c: return True / else: return
+    False, where the reference tests c."""
+    ref_u = set()
+    for t, has_else, jump in rf.get('tests', []):
+        try:
+            ref_u.add(_unsigned(ast.parse(t, mode='eval').body)[0])
+        except SyntaxError:
+            pass
+    if not ref_u:
+        return
+    for blk in _blocks(fn):
+        for i, st in enumerate(blk):
+            if not isinstance(st, ast.Return) or st.value is None:
+                continue
+            v = st.value
+            if isinstance(v, ast.Call) and _n(v.func) == 'bool' and \
+                    len(v.args) == 1:
+                v = v.args[0]
+            if isinstance(v, (ast.Compare, ast.BoolOp)) or (
+                    isinstance(v, ast.UnaryOp) and isinstance(v.op,
+                                                              ast.Not)):
+                if _unsigned(v)[0] in ref_u:
+                    new = ast.If(
+                        test=v,
+                        body=[ast.Return(value=ast.Constant(value=True))],
+                        orelse=[ast.Return(value=ast.Constant(value=False))])
+                    blk[i] = ast.copy_location(new, st)
+                    ast.fix_missing_locations(blk[i])
+                    log.append('%s: boolean return restored to if/else'
+                               % q)
+    ast.fix_missing_locations(fn)
+
+
 def _orient_ifs(fn, rf, log, q):
     """Bring every if-statement to the polarity / shape the reference has at
     the corresponding position (sequence alignment on the unsigned tests)."""
@@ -2101,6 +2135,7 @@ def canonicalise(tree, modname, text=None):
             continue            # unchanged forms: nothing to rewrite
         n0 = len(log)
         _inline_hoisted(fn, rf, log, q)
+        _restore_bool_returns(fn, rf, log, q)
         _loops_to_comprehensions(fn, rf, log, q)
         _unroll_literal_loops(fn, rf, log, q)
         _orient_ifs(fn, rf, log, q)
@@ -2112,6 +2147,7 @@ def canonicalise(tree, modname, text=None):
         _inline_indexed_comprehensions(fn, rf, log, q)
         _temps_and_names(fn, rf, log, q)
         _rehoist(fn, rf, log, q)
+        _restore_bool_returns(fn, rf, log, q)
         _orient_ifs(fn, rf, log, q)
         if len(log) > n0 or any(l.startswith('inlined helper')
                                 for l in log):
